@@ -511,6 +511,7 @@ func enumC04(n int, seed int64, thorough bool) []func() []wcaseT {
 				base.W.Transform = transformNames[g]
 				base.W.Entropy = []string{"NONE", "HUFFMAN", "ANS0"}[g%3]
 				base.W.Block = 65536
+				base.W.SkipBlocks = false // the incompressible tail must reach the transform
 				base.Shape = "tailrandom"
 				base.Size = 3*65536 + 20000 + 16*g
 				base.W.Hint = []int64{-1, int64(base.Size)}[g%2]
@@ -526,6 +527,10 @@ func enumC04(n int, seed int64, thorough bool) []func() []wcaseT {
 					r.W.Jobs = jobs
 					r.Seed = base.Seed + int64(k)
 					r.Parts = partsMenu[(g+k)%len(partsMenu)]
+					if len(r.Parts) > 0 && r.Parts[0] < 700 && r.Size > 30000 {
+						// keep the number of API events reasonable: a few small writes, then large ones
+						r.Parts = []int{r.Parts[0], 70001, 3}
+					}
 					r.Perturb = []int{0, 2, 6}[(k+rep)%3]
 					// the key identifies data and every parameter except jobs / partition / schedule
 					r.Key = fmt.Sprintf("g%d|%s|%s|%d|%d|%d|%v|%s|%d", g, r.W.Transform, r.W.Entropy, r.W.Block, r.W.Ck, r.W.Hint, r.W.SkipBlocks, r.Shape, r.Size)
